@@ -36,7 +36,9 @@ def tie_applicable(p, exact):
     return exact
 
 
-def rand_rows(r, n):
+def rand_rows(r, n, unit="ns"):
+    # instants with a sub-second part, as fine as the resolution of the column allows
+    fine = {"ns": 123456789, "us": 123456000, "ms": 123000000, "s": 0}[unit]
     rows = []
     for _ in range(n):
         rows.append({
@@ -44,7 +46,8 @@ def rand_rows(r, n):
             "y": r.choice([None, 0.0, 0.25, 1.0, 2.0, 4.0, -2.0, 10.0]),
             "i": r.choice([0, 1, 2, 3, 5, 8, -1, -4]),
             "b": r.choice([True, False]),
-            "t": r.choice([None, T0, T0 + DAY, T0 + 3 * DAY, T0 + 10 * DAY + 3600 * 10 ** 9, T0 - DAY]),
+            "t": r.choice([None, T0, T0 + DAY, T0 + 3 * DAY, T0 + 10 * DAY + 3600 * 10 ** 9, T0 - DAY,
+                           T0 + fine, T0 + 3 * DAY + 7 * fine]),
         })
     return rows
 
@@ -95,7 +98,8 @@ def auto_specs(rows, cols, binning, time_axis):
 def gen_one(r, i, tier):
     # (make_histograms refuses an empty frame with RuntimeError("data is empty"): frames and chunks have rows)
     n = r.choice([1, 2, r.randint(3, 14), r.randint(3, 14), r.randint(3, 14)])
-    rows = rand_rows(r, n)
+    ts_unit = r.choice(["ns", "ns", "us", "ms", "s"])      # timestamp columns of every resolution
+    rows = rand_rows(r, n, ts_unit)
     ndim = r.choice([1, 1, 2, 2, 3])
     cols = r.sample(list(DT), ndim)
     mode = r.choice(["explicit", "explicit", "auto", "unit"]) if n >= 2 else "explicit"
@@ -113,13 +117,20 @@ def gen_one(r, i, tier):
             time_axis = False
     if specs is None:
         specs = [rand_spec(r, c) for c in cols]
+        if DT[cols[-1]] in ("float", "int", "ts") and r.random() < 0.25:
+            # the last axis as a plain aggregate of the column (sum / average / extrema)
+            # (sums of instants - 1.6e18 ns each - are exact in one order of summation only: extrema there)
+            kinds = ["maximize", "minimize"] if DT[cols[-1]] == "ts" else ["sum", "average", "maximize", "minimize"]
+            specs[-1] = {r.choice(kinds): True}
     extra = {"columns": list(DT), "mode": mode}
     if ndim >= 2 and r.random() < 0.4:
         j = r.randrange(ndim)
         if DT[cols[j]] != "bool":
             extra["col_specs"] = {cols[j]: specs[j]}
     # timestamp columns of every resolution (all generated instants are whole seconds)
-    extra["ts_unit"] = r.choice(["ns", "ns", "us", "ms", "s"])
+    extra["ts_unit"] = ts_unit
+    # row labels: the default range, repeated labels (what pd.concat of chunks gives) or another order
+    extra["index"] = r.choice([None, None, "dup", "rev"])
     # a time axis whose own width / offset differ from the user's specification of that column,
     # which takes precedence (make_histograms: "note: bin_specs takes precedence")
     if "t" in cols and r.random() < 0.5 and (cols == ["t"] or "t" in (extra.get("col_specs") or {})):
